@@ -26,7 +26,7 @@ def c14(tier):
     t0 = time.time()
     pid = "C14"
     verdict = common.Verdict(pid)
-    progs, total = checks_refine.sample_programs(tier, fams=["F5a", "F5b", "F5c", "F5d", "F6"], name="c14", scale=1.5)
+    progs, total = checks_refine.sample_programs(tier, fams=["F5a", "F5b", "F5c", "F5d", "F6"], name="c14", scale=1.5, quota={"F6": 600, "F5d": None})
     cases, bodies = [], {}
     for i, p in enumerate(progs):
         used = vocab.closure(sorted(render.calls_in(p["body"])))
@@ -211,16 +211,21 @@ def c18(tier):
     total = len(fx)
     if tier == "quick":
         rnd = random.Random(common.seed())
-        two = [p for p in fx if len(p["body"]) == 2 and p["body"][0]["k"] != "for"]
-        rest = [p for p in fx if not (len(p["body"]) == 2 and p["body"][0]["k"] != "for")]
+        keep = lambda p: (len(p["body"]) == 2 and p["body"][0]["k"] != "for") or bool(render.calls_in(p["body"]))
+        two = [p for p in fx if keep(p)]
+        rest = [p for p in fx if not keep(p)]
         fx = two + rnd.sample(rest, min(len(rest), 1400))
     cases, bodies = [], {}
     io_names = ("PORT1", "PORT2", "PORT3")
     for i, p in enumerate(fx):
-        src = vocab.source(p["body"], [], ports=True)
+        fn = sorted(render.calls_in(p["body"]))
+        src = vocab.source(p["body"], fn, ports=True)
         cid = "FX-%05d" % i
-        cases.append(dict(id=cid, fam="FX", body=p["body"], fnames=[], io_names=io_names, extra_decl=vocab.PORT_DECLS,
-                          variants=[dict(name=l, args=[l], src=src) for l in ("-O0", "-O1", "-O2")]))
+        vs = [dict(name=l, args=[l], src=src) for l in ("-O0", "-O1", "-O2")]
+        if fn:      # the same program with every called function declared inline
+            isrc = vocab.source(p["body"], fn, inline=fn, ports=True)
+            vs += [dict(name="inline" + l, args=[l], src=isrc) for l in ("-O0", "-O1")]
+        cases.append(dict(id=cid, fam="FX", body=p["body"], fnames=fn, io_names=io_names, extra_decl=vocab.PORT_DECLS, variants=vs))
         bodies[cid] = p["body"]
     for p in fs:
         a, b = sleep_body(p["n"], p["ctx"], True), sleep_body(p["n"], p["ctx"], False)
